@@ -212,6 +212,51 @@ func applyDocEdit(doc *JV, op Op) bool {
 		}
 	case "rmcode":
 		return doc.Del("code")
+	case "breakdown":
+		// give a line a breakdown whose sub-line prices have fewer decimals than the currency,
+		// fractional quantities and a sub-line discount
+		if l := pick(); l != nil && l.Get("item") != nil {
+			mk := func(q, p string, disc bool) *JV {
+				sl := &JV{K: 'o', M: []JM{{"quantity", JStr(q)}, {"item", &JV{K: 'o', M: []JM{{"name", JStr("part")}, {"price", JStr(p)}}}}}}
+				if disc {
+					sl.M = append(sl.M, JM{"discounts", &JV{K: 'a', A: []*JV{{K: 'o', M: []JM{{"percent", JStr(op.S2)}, {"reason", JStr("sub-line discount")}}}}}})
+				}
+				return sl
+			}
+			l.Set("breakdown", &JV{K: 'a', A: []*JV{mk("1.5", "12.5", true), mk("3", "7", false), mk("0.333", "19.9", true)}})
+			return true
+		}
+	case "linedisc":
+		if l := pick(); l != nil {
+			l.Set("discounts", &JV{K: 'a', A: []*JV{{K: 'o', M: []JM{{"percent", JStr(op.S2)}, {"reason", JStr("line discount")}}}}})
+			return true
+		}
+	case "linecharge":
+		if l := pick(); l != nil {
+			l.Set("charges", &JV{K: 'a', A: []*JV{{K: 'o', M: []JM{{"percent", JStr(op.S2)}, {"reason", JStr("line charge")}}}}})
+			return true
+		}
+	case "docdisc":
+		if doc.Get("lines") == nil {
+			return false
+		}
+		doc.Set("discounts", &JV{K: 'a', A: []*JV{{K: 'o', M: []JM{{"percent", JStr(op.S2)}, {"reason", JStr("document discount")}}}}})
+		return true
+	case "advances":
+		// several percentage advances whose amounts have sub-cent remainders
+		if doc.Get("lines") == nil || doc.Get("totals") == nil && doc.Get("supplier") == nil {
+			return false
+		}
+		pay := doc.Get("payment")
+		if pay == nil {
+			pay = &JV{K: 'o'}
+			doc.Set("payment", pay)
+		}
+		mk := func(p string) *JV {
+			return &JV{K: 'o', M: []JM{{"description", JStr("advance")}, {"percent", JStr(p)}}}
+		}
+		pay.Set("advances", &JV{K: 'a', A: []*JV{mk(op.S2), mk(op.S2), mk("3.333%")}})
+		return true
 	case "addons":
 		if doc.Get("lines") == nil || doc.Get("supplier") == nil {
 			return false
@@ -233,7 +278,7 @@ func applyDocEdit(doc *JV, op Op) bool {
 	return false
 }
 
-var editKinds = []string{"qty", "price", "rmline", "dupline", "note", "rounding", "custname", "code"}
+var editKinds = []string{"qty", "price", "rmline", "dupline", "note", "rounding", "custname", "code", "breakdown", "linedisc", "linecharge", "docdisc", "advances"}
 
 func genEdit(r *rand.Rand, id int) Op {
 	k := Pick(r, editKinds)
@@ -251,6 +296,10 @@ func genEdit(r *rand.Rand, id int) Op {
 		op.S2 = Pick(r, []string{"Cliente Ñandú S.A.", "ACME / Ltd", "客户"})
 	case "code":
 		op.S2 = Pick(r, []string{"SIM-001", "A/2024/77", "0042"})
+	case "breakdown", "linedisc", "linecharge", "docdisc":
+		op.S2 = Pick(r, []string{"10%", "12.5%", "3.33%", "0.5%"})
+	case "advances":
+		op.S2 = Pick(r, []string{"12.5%", "33.3%", "7.77%"})
 	}
 	return op
 }
